@@ -29,7 +29,12 @@ class Module:
         self.name = name          # e.g. "fit", "rate.io", "model.core"
         self.relpath = relpath    # e.g. "src/nanite/fit.py"
         self.src = src
-        self.tree = ast.parse(src, filename=relpath)
+        self.raw_tree = ast.parse(src, filename=relpath)
+        if os.environ.get("NANITE_SA_NO_NORMALIZE"):
+            self.tree = self.raw_tree
+        else:
+            from .normalize import normalize_module
+            self.tree = normalize_module(ast.parse(src, filename=relpath))
         self.funcs: dict[str, ast.AST] = {}
         self.classes: dict[str, ast.ClassDef] = {}
         self.assigns: dict[str, list[ast.AST]] = {}
@@ -152,9 +157,12 @@ class Repo:
     def func(self, modname: str, qualname: str) -> ast.FunctionDef:
         return self.mod(modname).func(qualname)
 
-    def all_funcs(self):
+    def all_funcs(self, include_inlined=False):
         for m in self.modules.values():
             for q, f in m.funcs.items():
+                if getattr(f, "_inlined_helper", False) and \
+                        not include_inlined:
+                    continue
                 yield m, q, f
 
     def stats(self) -> dict:
